@@ -402,3 +402,7 @@ func (m *zvMsg) attrDigest() string {
 	}
 	return sb.String()
 }
+
+func sortSlice(idx []int, less func(a, b int) bool) {
+	sort.Slice(idx, func(i, j int) bool { return less(idx[i], idx[j]) })
+}
